@@ -17,7 +17,7 @@ def load_findings():
 
 def repo_fingerprint():
     h = hashlib.sha256()
-    for root, _, files in sorted(os.walk("/repo/src")):
+    for root, _, files in sorted(os.walk(os.path.join(kani.REPO, "src"))):
         for f in sorted(files):
             p = os.path.join(root, f)
             h.update(p.encode())
